@@ -191,6 +191,12 @@ func checkStrs(xs []string) {
 	rec.Eval(fmt.Sprint("str-triples", len(xs)), true)
 }
 
+// userMonoid has both Combine and Empty (so it is a semigroup.Semigroup and a monoid.Monoid)
+type userMonoid struct{ f func(a, b int) int }
+
+func (u userMonoid) Combine(a, b int) int { return u.f(a, b) }
+func (u userMonoid) Empty() int           { return -99 }
+
 type person struct {
 	Name string
 	Age  int
@@ -357,6 +363,28 @@ func checkMonoid(ints []int, strs []string) {
 				}
 				rec.Count("monoid_combine_cases", 1)
 			}
+		}
+	}
+	// the semigroup handed to monoid.From may itself be a Monoid (with another identity), or a user
+	// type that has both methods: Empty must still be the element given to From
+	for oi, op := range ops {
+		for i, e := range ints {
+			inner := monoid.FromOp(ints[(i+3)%len(ints)], op.f)
+			m3 := monoid.From[int](e, inner)
+			m4 := monoid.From[int](e, userMonoid{op.f})
+			c := caseT{Kind: "monoid-from-monoid:" + op.name, A: e, B: inner.Empty(), Fn: oi}
+			rec.Eval(fmt.Sprint("mfm", oi, e), e != inner.Empty())
+			if m3.Empty() != e {
+				bad("monoid.From/Empty", fmt.Sprintf("%s: From(%d, <a monoid whose identity is %d>).Empty() = %d", op.name, e, inner.Empty(), m3.Empty()), c)
+			}
+			if m4.Empty() != e {
+				bad("monoid.From/Empty", fmt.Sprintf("%s: From(%d, <user type with Empty() = -99>).Empty() = %d", op.name, e, m4.Empty()), c)
+			}
+			a, b := ints[(i+1)%len(ints)], ints[(i+5)%len(ints)]
+			if m3.Combine(a, b) != op.f(a, b) || m4.Combine(a, b) != op.f(a, b) {
+				bad("monoid.From/Combine", fmt.Sprintf("%s: Combine(%d,%d) through a wrapped monoid", op.name, a, b), c)
+			}
+			rec.Count("monoid_empty_cases", 2)
 		}
 	}
 	cat := func(a, b string) string { return a + "|" + b }
